@@ -140,3 +140,57 @@ Check load_keeps_event_log :
   forall (sp : ssite -> bool) (ssw : save_switches) (w : world) (j : json),
     w_events (snd (load_state sp ssw w j)) = w_events w.
 Print Assumptions load_keeps_event_log.
+
+(* ---------------- between host calls the observation batch is closed ----------------
+   continue_internal opens the batch at the start of an outermost continue and closes it — reporting every
+   changed variable once with its final value (complete_reports_final_values) — when the line is finished;
+   no interpreter function opens or closes it.  So in every world reached from construction by story
+   operations (none of which panicked), whenever no time-limited continue is pending: nothing is left
+   unreported, and a variable the host sets is notified immediately. *)
+From Ink.Shell Require Import Balance BetweenCalls BatchClosed.
+Theorem batch_closed_between_calls :
+  forall (I : iface) (ops : list story_op) (w : world),
+    P05 w -> no_panic I sw_now ops w -> P05 (run_story_ops I sw_now ops w).
+Proof. exact (fun I => BatchClosed.batch_closed_between_calls I sw_now now_cont_check_first now_counter_dec_first). Qed.
+Check batch_closed_between_calls :
+  forall (I : iface) (ops : list story_op) (w : world),
+    P05 w -> no_panic I sw_now ops w -> P05 (run_story_ops I sw_now ops w).
+Print Assumptions batch_closed_between_calls.
+
+Theorem reachable_worlds_have_no_pending_observation :
+  forall (I : iface) st seed fuel ops,
+    no_panic I sw_now ops (world_init st seed fuel) ->
+    let w := run_story_ops I sw_now ops (world_init st seed fuel) in
+    w_async w = false ->
+    vs_batch (ss_vars (w_state w)) = false /\ vs_changed (ss_vars (w_state w)) = None.
+Proof. exact (fun I => BatchClosed.reachable_worlds_have_no_pending_observation I sw_now now_cont_check_first now_counter_dec_first). Qed.
+Check reachable_worlds_have_no_pending_observation :
+  forall (I : iface) st seed fuel ops,
+    no_panic I sw_now ops (world_init st seed fuel) ->
+    let w := run_story_ops I sw_now ops (world_init st seed fuel) in
+    w_async w = false ->
+    vs_batch (ss_vars (w_state w)) = false /\ vs_changed (ss_vars (w_state w)) = None.
+Print Assumptions reachable_worlds_have_no_pending_observation.
+
+Theorem host_set_notifies_in_every_reachable_world :
+  forall (I : iface) st seed fuel ops (name : text) (v : value) s' obs,
+    no_panic I sw_now ops (world_init st seed fuel) ->
+    let w := run_story_ops I sw_now ops (world_init st seed fuel) in
+    w_async w = false ->
+    assoc_mem name (vs_defaults (ss_vars (w_state w))) = true ->
+    set_global I (w_state w) name v = Ok (true, s') ->
+    assoc name (w_observers w) = Some obs ->
+    set_variable I sw_now name v w
+    = (OOk tt, (w <| w_state := s' |>) <| w_events ::= fun evs => evs ++ map (fun o => EvObs o name v) obs |>).
+Proof. exact BatchClosed.host_set_notifies_in_every_reachable_world. Qed.
+Check host_set_notifies_in_every_reachable_world :
+  forall (I : iface) st seed fuel ops (name : text) (v : value) s' obs,
+    no_panic I sw_now ops (world_init st seed fuel) ->
+    let w := run_story_ops I sw_now ops (world_init st seed fuel) in
+    w_async w = false ->
+    assoc_mem name (vs_defaults (ss_vars (w_state w))) = true ->
+    set_global I (w_state w) name v = Ok (true, s') ->
+    assoc name (w_observers w) = Some obs ->
+    set_variable I sw_now name v w
+    = (OOk tt, (w <| w_state := s' |>) <| w_events ::= fun evs => evs ++ map (fun o => EvObs o name v) obs |>).
+Print Assumptions host_set_notifies_in_every_reachable_world.
